@@ -447,6 +447,9 @@ class GroupBuild:
         self.ops.append(op)
         shapes = self.container(op["into"])
         kind = op["op"]
+        if op.get("turbo"):  # "turbo-add" (cached next shape id) switched on for this collection before the addition
+            shapes.turbo_add_enabled = True
+            CALLS["additions_with_turbo_add_enabled"] += 1
         if kind == "group":
             current = list(shapes)
             g = shapes.add_group_shape([current[i] for i in op["take"]])
@@ -538,6 +541,8 @@ def gen_op(b, r):
         op["sized"] = r.random() < 0.5
     elif kind == "freeform":
         op["pen"] = gen_pen(r, small=r.random() < 0.5)
+    if r.random() < 0.12:
+        op["turbo"] = True
     return op
 
 
